@@ -374,13 +374,20 @@ impl Ctx {
     /// two related runs (C06 / C09 / C17)
     pub fn push_pair(&mut self, stream: &str, kind: &str,
                      a: (&PortableRegistry, &SettingsSpec), b: (&PortableRegistry, &SettingsSpec)) {
+        self.push_pair_perm(stream, kind, a, b, &[])
+    }
+
+    /// `perm[j]` = position in `a` of the entry at position `j` of `b` (kind "renumbered")
+    pub fn push_pair_perm(&mut self, stream: &str, kind: &str,
+                          a: (&PortableRegistry, &SettingsSpec), b: (&PortableRegistry, &SettingsSpec), perm: &[usize]) {
         let oa = observe_tg(a.0, a.1);
         let ob = observe_tg(b.0, b.1);
         let term = format!(
-            "(mk_pair {} {} {})",
+            "(mk_pair {} {} {} {})",
             crate::coq::cstr(kind),
             coq_case(stream, a.0, a.1, &oa, &None),
-            coq_case(stream, b.0, b.1, &ob, &None)
+            coq_case(stream, b.0, b.1, &ob, &None),
+            clist(perm.iter().map(|x| crate::coq::cn(*x as u128)))
         );
         let n = a.0.types.len();
         self.sizes[match n { 0..=3 => 0, 4..=10 => 1, 11..=30 => 2, 31..=100 => 3, _ => 4 }] += 1;
@@ -392,7 +399,7 @@ impl Ctx {
             self.nontrivial += 1;
         }
         let small = n <= 12;
-        let input = json!({"pair_kind": kind, "a": {"registry": ra, "settings": a.1}, "b": {"registry": rb, "settings": b.1}});
+        let input = json!({"pair_kind": kind, "perm": perm, "a": {"registry": ra, "settings": a.1}, "b": {"registry": rb, "settings": b.1}});
         let j = if small {
             json!({"stream": stream, "input": input,
                    "observed_a": oa.gen.json(|t| json!(t.join(" "))), "observed_b": ob.gen.json(|t| json!(t.join(" ")))})
@@ -448,7 +455,8 @@ pub fn generate(prop: &str, tier: &str, seed: u64, out: &Path, nshards: usize, r
             let rb = reggen::to_registry(&input["b"]["registry"]);
             let sa: SettingsSpec = serde_json::from_value(input["a"]["settings"].clone()).unwrap();
             let sb: SettingsSpec = serde_json::from_value(input["b"]["settings"].clone()).unwrap();
-            ctx.push_pair("replay", input["pair_kind"].as_str().unwrap_or("same"), (&ra, &sa), (&rb, &sb));
+            let perm: Vec<usize> = input["perm"].as_array().map(|a| a.iter().map(|x| x.as_u64().unwrap_or(0) as usize).collect()).unwrap_or_default();
+            ctx.push_pair_perm("replay", input["pair_kind"].as_str().unwrap_or("same"), (&ra, &sa), (&rb, &sb), &perm);
         } else {
             let spec: SettingsSpec = serde_json::from_value(input["settings"].clone()).unwrap();
             let reg = reggen::to_registry(&input["registry"]);
